@@ -3,7 +3,13 @@
 // mode=seq   (asan): histories of {AddCallback, RemoveCallback, destroy instrument, Collect(reader r)}
 //            over observable counters / up-down counters / gauges (int64 and double) with scripted
 //            callbacks: callback j at its n-th invocation reports script[j][n] (a map attrs -> total),
-//            so invocation counts and values are both decided by the model M.
+//            so invocation counts and values are both decided by the model M.  A "replaying"
+//            callback (1 in 3) first observes 1..2 decoy values for a set and then the real one within
+//            the same invocation (gauges: the most recent observation must be reported).  Every ~8th
+//            history is a directed "starved reader" history: >= 2 readers, one reader collects 34..60
+//            times in a row (the observed totals keep changing) while the others do not collect, then
+//            the others collect: what they are given must not depend on how often somebody else
+//            collected in between.
 // mode=race  (tsan + shim): AddCallback / RemoveCallback / instrument destruction racing Collect; a
 //            callback is never invoked after RemoveCallback (or the destruction) returned; callbacks
 //            that stay registered are invoked exactly once per collection; TSan silent.
@@ -12,7 +18,10 @@
 // Don't-care (counted, never judged): points for attribute sets that the callback did not report in
 // this very collection (sets that disappeared, removed callbacks, destroyed instruments); a delta
 // reader's catch-up points for such sets are followed so that "what that reader was last given"
-// stays exact.
+// stays exact.  Sum points (observable counter / up-down counter) for a set that one invocation
+// observed more than once: "the reported total" is not unique there (the OpenTelemetry API leaves the
+// behaviour for duplicate observations unspecified), so they are counted and followed, never judged;
+// gauges are judged (the statement says "the most recently observed value").
 #include <thread>
 
 #include "opentelemetry/context/context.h"
@@ -75,6 +84,8 @@ struct Callback
   int fn         = 0;  // which of the two C functions it is registered with
   std::vector<int> attrs;                       // pool indices this callback owns
   std::vector<std::map<int, Val>> script;       // [n] -> attrs index -> total
+  std::vector<std::map<int, std::vector<Val>>> decoy;  // [n] -> attrs index -> values observed BEFORE script[n] in the same invocation
+  bool replays = false;                         // this callback observes decoys at all
   size_t invocations = 0;
   bool registered    = false;
   bool ever_added    = false;
@@ -120,8 +131,12 @@ struct SeqCase
 {
   vf::Report &R = vf::report();
   Rng r;
+  Rng rx;  // second stream: decoy observations and the starved-reader history class
   std::vector<bool> rdelta[3];  // [kind][reader]
   size_t nreaders = 1;
+  bool starved_hist = false;     // directed history class: one reader collects 34..60 times in a row
+  std::vector<bool> starved;     // [reader]: does not collect during that burst (decided with the configuration)
+  bool burst_done = false, in_starved_collect = false, starved_judged = false, repeated_judged = false;
   std::vector<std::string> meters;
   std::vector<AttrMap> pool;
   std::vector<ObsInst> insts;
@@ -141,7 +156,13 @@ struct SeqCase
   int pending_removal_phase = 0;  // 1: collect happened, 2: then a removal, 3: then another collect
   bool collected_once = false, removed_after_collect = false;
 
-  explicit SeqCase(uint64_t seed) : r(seed) {}
+  explicit SeqCase(uint64_t seed) : r(seed), rx(vf::mix(seed, 0x17dec0)), starved_hist(vf::mix(seed, 0x57a17ed) % 8 == 0) {}
+
+  // input class of a judged point: instrument kind / reader configuration (never the outcome)
+  std::string point_class(int kind, size_t ri, bool delta) const
+  {
+    return std::string(kind_name(kind)) + "/" + reader_class(nreaders, delta) + (starved[ri] ? ":starved-reader" : "");
+  }
 
   void note(const std::string &s)
   {
@@ -153,7 +174,7 @@ struct SeqCase
   {
     std::string s = "readers[";
     for (size_t i = 0; i < nreaders; ++i)
-      s += std::string(rdelta[0][i] ? "D" : "C") + (rdelta[1][i] ? "D" : "C") + (rdelta[2][i] ? "D" : "C") + " ";
+      s += std::string(rdelta[0][i] ? "D" : "C") + (rdelta[1][i] ? "D" : "C") + (rdelta[2][i] ? "D" : "C") + (starved[i] ? "*starved " : " ");
     s += "] insts[";
     for (size_t i = 0; i < insts.size(); ++i)
     {
@@ -161,7 +182,7 @@ struct SeqCase
            (insts[i].monotone_script ? ":mono" : ":nonmono") + ":cbs{";
       for (int c : insts[i].cbs)
       {
-        s += std::to_string(c) + "(fn" + std::to_string(cbs[c]->fn) + ":a";
+        s += std::to_string(c) + "(fn" + std::to_string(cbs[c]->fn) + (cbs[c]->replays ? ":replays" : "") + ":a";
         for (int a : cbs[c]->attrs)
           s += std::to_string(a) + ".";
         s += ") ";
@@ -225,14 +246,40 @@ struct SeqCase
     return v;
   }
 
+  // a value that differs from `real`, of the instrument's class and sign rules, observed for the same
+  // attribute set earlier in the same invocation
+  Val gen_decoy(const ObsInst &in, const Val &real)
+  {
+    Val v         = real;
+    bool positive = in.kind == kObsCounter || rx.coin();  // a counter's total is never negative
+    if (in.vc == kTolDouble)
+    {
+      double off = std::fabs(real.d) * 0.25 + 0.5 + rx.unit();
+      v.d        = positive ? real.d + off : real.d - off;
+      return v;
+    }
+    int64_t off = rx.coin() ? rx.range(1, 10) : rx.range(11, 5000);
+    v.fx        = positive ? real.fx + off : real.fx - off;
+    return v;
+  }
+
   void generate()
   {
     nreaders = r.chance(3, 10) ? 1 : static_cast<size_t>(r.range(2, 3));
+    if (starved_hist && nreaders == 1)
+      nreaders = static_cast<size_t>(rx.range(2, 3));
     for (size_t i = 0; i < nreaders; ++i)
     {
       bool d = r.coin();
       for (int k = 0; k < 3; ++k)
         rdelta[k].push_back(r.chance(1, 8) ? !d : d);
+    }
+    starved.assign(nreaders, false);
+    if (starved_hist)
+    {
+      size_t fast = static_cast<size_t>(rx.below(nreaders));
+      for (size_t i = 0; i < nreaders; ++i)
+        starved[i] = i != fast;
     }
     size_t nmeters = r.chance(2, 3) ? 1 : 2;
     for (size_t i = 0; i < nmeters; ++i)
@@ -272,6 +319,8 @@ struct SeqCase
       ObsInst in;
       in.meter           = static_cast<int>(r.below(nmeters));
       in.kind            = static_cast<int>(r.below(3));
+      if (starved_hist && i == 0 && in.kind == kObsGauge)
+        in.kind = static_cast<int>(rx.below(2));  // the starved-reader class is about running totals
       in.dbl             = r.coin();
       in.vc              = !in.dbl ? kIntClass : (r.chance(1, 3) ? kTolDouble : kExactDouble);
       in.monotone_script = r.chance(55, 100);
@@ -290,6 +339,7 @@ struct SeqCase
         cb->id     = static_cast<int>(cbs.size());
         cb->inst   = static_cast<int>(i);
         cb->fn     = static_cast<int>(r.below(2));
+        cb->replays = rx.chance(1, 3);
         size_t own = std::min<size_t>(static_cast<size_t>(r.range(1, 3)), avail.size() - (ncb - c - 1));
         for (size_t k = 0; k < own && !avail.empty(); ++k)
         {
@@ -302,6 +352,7 @@ struct SeqCase
         for (size_t n = 0; n < 160; ++n)
         {
           std::map<int, Val> e;
+          std::map<int, std::vector<Val>> dec;
           for (int a : cb->attrs)
           {
             if (!r.chance(85, 100))
@@ -310,8 +361,12 @@ struct SeqCase
             cur[a]  = v;
             have[a] = true;
             e[a]    = v;
+            if (cb->replays && rx.chance(1, 3))
+              for (int64_t k = rx.range(1, 2); k > 0; --k)
+                dec[a].push_back(gen_decoy(in, v));
           }
           cb->script.push_back(e);
+          cb->decoy.push_back(dec);
         }
         in.cbs.push_back(cb->id);
         cbs.push_back(std::move(cb));
@@ -368,50 +423,62 @@ struct SeqCase
       cb.type_wrong = true;
       return;
     }
-    for (auto &e : cb.script[idx])
-    {
-      const AttrMap &m = pool[e.first];
-      bool bare        = m.empty() && r.coin();
+    // one Observe call for attribute set m; every overload is used
+    auto observe_one = [&](const AttrMap &m, const Val &val, Rng &g) {
+      bool bare = m.empty() && g.coin();
       if (in.dbl)
       {
         auto &o  = nostd::get<nostd::shared_ptr<mapi::ObserverResultT<double>>>(res);
-        double v = e.second.as_double(in.vc);
+        double v = val.as_double(in.vc);
         if (bare)
           o->Observe(v);
         else
         {
-          AttrArg a(m, r);
+          AttrArg a(m, g);
           const common::KeyValueIterable &kv = a;
-          if (r.coin())
+          if (g.coin())
             o->Observe(v, kv);
           else
           {
             auto p = a.pairs();
             o->Observe(v, p);
           }
-          a.kill(r.coin());
+          a.kill(g.coin());
         }
       }
       else
       {
         auto &o   = nostd::get<nostd::shared_ptr<mapi::ObserverResultT<int64_t>>>(res);
-        int64_t v = e.second.fx;
+        int64_t v = val.fx;
         if (bare)
           o->Observe(v);
         else
         {
-          AttrArg a(m, r);
+          AttrArg a(m, g);
           const common::KeyValueIterable &kv = a;
-          if (r.coin())
+          if (g.coin())
             o->Observe(v, kv);
           else
           {
             auto p = a.pairs();
             o->Observe(v, p);
           }
-          a.kill(r.coin());
+          a.kill(g.coin());
         }
       }
+    };
+    for (auto &e : cb.script[idx])
+    {
+      // a replaying callback first observes older/provisional values for the same attribute set
+      // (own key order, own overload, own buffers), then the real one: the last observation counts
+      auto d = cb.decoy[idx].find(e.first);
+      if (d != cb.decoy[idx].end())
+        for (auto &dv : d->second)
+        {
+          observe_one(pool[e.first], dv, rx);
+          R.count("op_decoy_observe");
+        }
+      observe_one(pool[e.first], e.second, r);
     }
   }
 
@@ -497,6 +564,7 @@ struct SeqCase
 
     // ---- what was reported in this collection: (inst, attr) -> total, from the callbacks' own record
     std::map<std::pair<int, int>, Val> reported;
+    std::map<std::pair<int, int>, const std::vector<Val> *> repeated;  // sets observed more than once in this invocation
     for (auto &cbp : cbs)
       if (!cbp->now.empty())
       {
@@ -505,6 +573,12 @@ struct SeqCase
           reported[std::make_pair(cbp->inst, e.first)] = e.second;
           auto &in                                     = insts[cbp->inst];
           magsum[std::make_pair(cbp->inst, e.first)] += std::fabs(static_cast<long double>(e.second.as_double(in.vc)));
+        }
+        for (auto &d : cbp->decoy[cbp->now.back()])
+        {
+          repeated[std::make_pair(cbp->inst, d.first)] = &d.second;
+          for (auto &dv : d.second)  // the decoys may have gone through the SDK's arithmetic too
+            magsum[std::make_pair(cbp->inst, d.first)] += std::fabs(static_cast<long double>(dv.as_double(insts[cbp->inst].vc)));
         }
         if (cbp->now.size() >= 1 && cbp->now.back() > 0)
         {
@@ -538,12 +612,12 @@ struct SeqCase
         auto ai = attr_of.find(p.attrs);
         if (ai == attr_of.end())
         {
-          R.violation("phantom-series", std::string(kind_name(in.kind)) + "/" + reader_class(nreaders, delta), witness("instrument " + in.name + " point with attrs " + show_canon(p.attrs) + " that no callback ever reports"));
+          R.violation("phantom-series", point_class(in.kind, ri, delta), witness("instrument " + in.name + " point with attrs " + show_canon(p.attrs) + " that no callback ever reports"));
           continue;
         }
         auto key = std::make_pair(ii->second, p.attrs);
         if (pts.count(key))
-          R.violation("point-unique", std::string(kind_name(in.kind)) + "/" + reader_class(nreaders, delta), witness("instrument " + in.name + " two points for attrs " + show_canon(p.attrs) + " in one collection"));
+          R.violation("point-unique", point_class(in.kind, ri, delta), witness("instrument " + in.name + " two points for attrs " + show_canon(p.attrs) + " in one collection"));
         pts[key] = &p;
         if (!reported.count(std::make_pair(ii->second, ai->second)))
         {
@@ -570,7 +644,7 @@ struct SeqCase
       int a      = rp.first.second;
       auto &in   = insts[ii];
       bool delta = rdelta[in.kind][ri];
-      std::string cls = std::string(kind_name(in.kind)) + "/" + reader_class(nreaders, delta);
+      std::string cls = point_class(in.kind, ri, delta);
       auto pi    = pts.find(std::make_pair(ii, canon(pool[a])));
       const GotPoint *p = pi == pts.end() ? nullptr : pi->second;
       Got got_v;
@@ -580,16 +654,59 @@ struct SeqCase
       Acc total;
       total.add(in.vc, rp.second);
       long double ms = magsum[rp.first] * 2;
+      auto rpt = repeated.find(rp.first);
+      std::string earlier;  // the values observed for this set earlier in the same invocation
+      if (rpt != repeated.end())
+        for (auto &dv : *rpt->second)
+        {
+          Acc da;
+          da.add(in.vc, dv);
+          earlier += (earlier.empty() ? "" : ", ") + show(in.vc, da);
+        }
       if (in.kind == kObsGauge)
       {
         R.count("gauge_points_checked");
         bool okv = p && p->kind == 1 && p->lv_valid &&
                    (in.vc == kTolDouble ? (!got_v.is_int && got_v.d == rp.second.d) : matches(in.vc, total, got_v));
+        if (rpt != repeated.end())
+        {
+          // the callback observed this set 2..3 times in this invocation: the most recent one counts
+          R.count("gauge_points_checked_repeated_observe");
+          repeated_judged = true;
+          if (!okv)
+            R.violation("gauge-latest", cls + ":repeated-observe-in-one-invocation",
+                        witness(where + "got " + show(got_v) + (p && p->kind != 1 ? " (not a last-value point)" : "") + " want " + show(in.vc, total) +
+                                ", the most recent of the values the callback observed for this set in this collection (it observed " + earlier + " first, then " + show(in.vc, total) + ")"));
+          continue;
+        }
         if (!okv)
           R.violation("gauge-latest", cls, witness(where + "got " + show(got_v) + (p && p->kind != 1 ? " (not a last-value point)" : "") + " want the value observed in this collection " + show(in.vc, total)));
         continue;
       }
       auto &gc = given[std::make_tuple(ri, ii, a)];
+      if (rpt != repeated.end())
+      {
+        // don't-care: "the reported total" is not unique when one invocation reports several totals
+        // for the set.  Follow what a delta reader was given so that its next difference stays exact
+        // (whichever of the totals the SDK kept, the following deltas telescope to the next total).
+        R.count("sum_point_for_repeatedly_observed_set_dontcare");
+        if (delta && p && p->kind == 0)
+        {
+          if (in.vc == kTolDouble)
+            gc.given.d += p->v.as_double();
+          else if (in.vc == kExactDouble)
+            gc.given.fx += static_cast<int64_t>(std::llround(p->v.as_double() * kFx));
+          else
+            gc.given.fx += p->v.is_int ? p->v.i : static_cast<int64_t>(p->v.d);
+          gc.mag += std::fabs(static_cast<long double>(p->v.as_double()));
+        }
+        continue;
+      }
+      if (in_starved_collect)
+      {
+        R.count(delta ? "starved_reader_delta_points_checked" : "starved_reader_cumulative_points_checked");
+        starved_judged = true;
+      }
       if (!delta)
       {
         R.count("cumulative_points_checked");
@@ -621,6 +738,109 @@ struct SeqCase
     }
   }
 
+  // one step of the random walk over {AddCallback, RemoveCallback, destroy, RemoveCallback of
+  // something not registered, Collect}.  In a starved-reader history instrument 0 (a counter or
+  // up-down counter) is not destroyed before the burst is over.
+  void random_step()
+  {
+    unsigned c = static_cast<unsigned>(r.below(100));
+    if (c < 12)
+    {
+      std::vector<Callback *> cand;
+      for (auto &cb : cbs)
+        if (!cb->registered && insts[cb->inst].alive)
+          cand.push_back(cb.get());
+      if (!cand.empty())
+        op_add(*cand[r.below(cand.size())]);
+    }
+    else if (c < 24)
+    {
+      std::vector<Callback *> cand;
+      for (auto &cb : cbs)
+        if (cb->registered)
+          cand.push_back(cb.get());
+      if (!cand.empty())
+        op_remove(*cand[r.below(cand.size())]);
+    }
+    else if (c < 26)
+    {
+      std::vector<size_t> cand;
+      for (size_t i = 0; i < insts.size(); ++i)
+        if (insts[i].alive && !(starved_hist && !burst_done && i == 0))
+          cand.push_back(i);
+      if (cand.size() > 1 || (cand.size() == 1 && r.chance(1, 4)))
+        op_destroy(cand[r.below(cand.size())]);
+    }
+    else if (c < 30)
+    {
+      // RemoveCallback of something that is not registered (other function / never added): no effect
+      auto &cb = *cbs[r.below(cbs.size())];
+      if (insts[cb.inst].alive)
+      {
+        if (cb.registered)
+          insts[cb.inst].obj->RemoveCallback(fn_of(1 - cb.fn), &cb);  // same state, other function
+        else
+          insts[cb.inst].obj->RemoveCallback(fn_of(cb.fn), &cb);
+        note("remove-unregistered(cb" + std::to_string(cb.id) + ")");
+        R.count("op_remove_not_registered");
+      }
+    }
+    else
+      op_collect(static_cast<size_t>(r.below(nreaders)));
+  }
+
+  // directed history: a short random prefix, then one reader collects 34..60 times in a row while the
+  // callbacks of instrument 0 keep reporting changing totals (an occasional AddCallback/RemoveCallback
+  // in between) and the starved readers do not collect; then every starved reader collects; then a
+  // short random suffix.  Returns the number of steps.
+  size_t run_starved()
+  {
+    size_t steps = 0;
+    for (size_t k = static_cast<size_t>(rx.range(0, 15)); k > 0; --k, ++steps)
+      random_step();
+    for (int c : insts[0].cbs)
+      if (!cbs[c]->registered)
+        op_add(*cbs[c]);
+    size_t fast = 0;
+    for (size_t i = 0; i < nreaders; ++i)
+      if (!starved[i])
+        fast = i;
+    size_t burst = static_cast<size_t>(rx.range(34, 60));
+    for (size_t k = 0; k < burst; ++k, ++steps)
+    {
+      if (rx.chance(1, 12))
+      {
+        std::vector<Callback *> cand;
+        bool add = rx.coin();
+        for (auto &cb : cbs)
+          if (insts[cb->inst].alive && cb->registered != add)
+            cand.push_back(cb.get());
+        if (!cand.empty())
+        {
+          Callback &cb = *cand[rx.below(cand.size())];
+          if (add)
+            op_add(cb);
+          else
+            op_remove(cb);
+        }
+      }
+      op_collect(fast);
+    }
+    burst_done = true;
+    R.maxi("max_collections_between_two_of_a_starved_reader", burst);
+    for (int c : insts[0].cbs)
+      if (!cbs[c]->registered)
+        op_add(*cbs[c]);  // so that the starved readers' collections see reported (judged) totals
+    in_starved_collect = true;
+    for (size_t i = 0; i < nreaders; ++i, ++steps)
+      if (starved[i])
+        op_collect(i);
+    in_starved_collect = false;
+    for (size_t k = static_cast<size_t>(rx.range(0, 15)); k > 0; --k, ++steps)
+      random_step();
+    return steps;
+  }
+
   void run()
   {
     generate();
@@ -630,59 +850,21 @@ struct SeqCase
     for (auto &cb : cbs)
       if (r.chance(7, 10))
         op_add(*cb);
-    for (size_t step = 0; step < nsteps; ++step)
-    {
-      unsigned c = static_cast<unsigned>(r.below(100));
-      if (c < 12)
-      {
-        std::vector<Callback *> cand;
-        for (auto &cb : cbs)
-          if (!cb->registered && insts[cb->inst].alive)
-            cand.push_back(cb.get());
-        if (!cand.empty())
-          op_add(*cand[r.below(cand.size())]);
-      }
-      else if (c < 24)
-      {
-        std::vector<Callback *> cand;
-        for (auto &cb : cbs)
-          if (cb->registered)
-            cand.push_back(cb.get());
-        if (!cand.empty())
-          op_remove(*cand[r.below(cand.size())]);
-      }
-      else if (c < 26)
-      {
-        std::vector<size_t> cand;
-        for (size_t i = 0; i < insts.size(); ++i)
-          if (insts[i].alive)
-            cand.push_back(i);
-        if (cand.size() > 1 || (cand.size() == 1 && r.chance(1, 4)))
-          op_destroy(cand[r.below(cand.size())]);
-      }
-      else if (c < 30)
-      {
-        // RemoveCallback of something that is not registered (other function / never added): no effect
-        auto &cb = *cbs[r.below(cbs.size())];
-        if (insts[cb.inst].alive)
-        {
-          if (cb.registered)
-            insts[cb.inst].obj->RemoveCallback(fn_of(1 - cb.fn), &cb);  // same state, other function
-          else
-            insts[cb.inst].obj->RemoveCallback(fn_of(cb.fn), &cb);
-          note("remove-unregistered(cb" + std::to_string(cb.id) + ")");
-          R.count("op_remove_not_registered");
-        }
-      }
-      else
-        op_collect(static_cast<size_t>(r.below(nreaders)));
-    }
+    if (starved_hist)
+      nsteps = run_starved();
+    else
+      for (size_t step = 0; step < nsteps; ++step)
+        random_step();
     for (size_t ri = 0; ri < nreaders; ++ri)
       op_collect(ri);
 
     R.count("histories");
     if (removal_between_collections)
       R.count("hist_removal_between_collections");
+    if (starved_hist && starved_judged)
+      R.count("hist_starved_reader");
+    if (repeated_judged)
+      R.count("hist_gauge_repeated_observe");
     bool mixed = false;
     for (int k = 0; k < 3; ++k)
       for (size_t i = 1; i < nreaders; ++i)
